@@ -12,262 +12,20 @@ import (
 	"sync"
 	"testing"
 
-	"github.com/google/go-containerregistry/pkg/name"
 	gcrv1 "github.com/google/go-containerregistry/pkg/v1"
 	"github.com/google/go-containerregistry/pkg/v1/random"
 	"github.com/spf13/afero"
-	corev1 "k8s.io/api/core/v1"
-	metav1 "k8s.io/apimachinery/pkg/apis/meta/v1"
-	"k8s.io/apimachinery/pkg/types"
 	utilrand "k8s.io/apimachinery/pkg/util/rand"
 	"pgregory.net/rapid"
-	"sigs.k8s.io/controller-runtime/pkg/reconcile"
 
 	"github.com/crossplane/crossplane-runtime/pkg/parser"
 
 	v1 "github.com/crossplane/crossplane/apis/pkg/v1"
-	"github.com/crossplane/crossplane/apis/pkg/v1beta1"
 	"github.com/crossplane/crossplane/internal/controller/pkg/revision"
-	"github.com/crossplane/crossplane/internal/controller/pkg/signature"
 	"github.com/crossplane/crossplane/internal/verifkit"
-	"github.com/crossplane/crossplane/internal/verifsim"
 	"github.com/crossplane/crossplane/internal/xpkg"
 	"github.com/crossplane/crossplane/internal/xpkg/parser/examples"
 )
-
-// ---------------------------------------------------------------------------
-// signature verification gate
-
-type vcfg struct {
-	Name   string `json:"name"`
-	Prefix string `json:"prefix"`
-	// Mode: none (no verification section) | nocosign (verification without
-	// cosign config) | cosign
-	Mode    string `json:"mode"`
-	Verdict bool   `json:"verdict"` // what the validator says for this config's authorities
-}
-
-type vstep struct {
-	Kind string `json:"kind"` // sig | rev | add | del | flip
-	Cfg  int    `json:"cfg,omitempty"`
-}
-
-var vprefixes = []struct {
-	p     string
-	match bool
-}{
-	{"xpkg.example.org", true},
-	{"xpkg.example.org/acme", true},
-	{"xpkg.example.org/acme/pkg", true},
-	{"xpkg.example.org/acme/pkg:v1", true},
-	{"xpkg.example.org/other", false},
-	{"registry.other.io", false},
-	{"xpkg.example.org/acme/pkg:v2", false},
-}
-
-type scriptedValidator struct {
-	mu      sync.Mutex
-	verdict map[string]bool // by authority name
-	calls   []vcall
-}
-
-type vcall struct {
-	Ref       string
-	Authority string
-	OK        bool
-}
-
-func (v *scriptedValidator) Validate(_ context.Context, ref name.Reference, config *v1beta1.ImageVerification, _ ...string) error {
-	v.mu.Lock()
-	defer v.mu.Unlock()
-	a := ""
-	if config != nil && config.Cosign != nil && len(config.Cosign.Authorities) > 0 {
-		a = config.Cosign.Authorities[0].Name
-	}
-	ok := v.verdict[a]
-	v.calls = append(v.calls, vcall{Ref: ref.String(), Authority: a, OK: ok})
-	if !ok {
-		return fmt.Errorf("verif: signature rejected by authority %q", a)
-	}
-	return nil
-}
-
-func imageConfig(c vcfg) *v1beta1.ImageConfig {
-	ic := &v1beta1.ImageConfig{ObjectMeta: metav1.ObjectMeta{Name: c.Name}, Spec: v1beta1.ImageConfigSpec{MatchImages: []v1beta1.ImageMatch{{Type: v1beta1.Prefix, Prefix: c.Prefix}}}}
-	switch c.Mode {
-	case "nocosign":
-		ic.Spec.Verification = &v1beta1.ImageVerification{Provider: v1beta1.ImageVerificationProviderCosign}
-	case "cosign":
-		ic.Spec.Verification = &v1beta1.ImageVerification{Provider: v1beta1.ImageVerificationProviderCosign,
-			Cosign: &v1beta1.CosignVerificationConfig{Authorities: []v1beta1.CosignAuthority{{Name: c.Name}}}}
-	}
-	return ic
-}
-
-func verifiedOf(o verifsim.Obj) string {
-	conds, _ := verifsim.Nested(o, "status", "conditions").([]any)
-	for _, c := range conds {
-		m, _ := c.(map[string]any)
-		if m["type"] == string(v1.TypeVerified) {
-			s, _ := m["status"].(string)
-			return s
-		}
-	}
-	return ""
-}
-
-// TestVerifC15Verification: with signature verification enabled, Verified=True
-// is only ever written by the signature controller, after the validator
-// accepted the image under the best (longest prefix) matching verification
-// config or when no verification config matches; and the revision controller
-// never establishes a revision that is not Verified=True.
-func TestVerifC15Verification(t *testing.T) {
-	rec := verifkit.New(t, "C15", "verification: cases = set of ImageConfigs (prefix x verification mode x validator verdict) x interleaving of signature/revision reconciles and config changes; non-trivial = at least one matching verification config; distinct by (configs, steps)")
-	docs := []doc{{Kind: "meta:Provider", Name: "pkg", MetaAPI: "v1"}, {Kind: "crd", Name: "a"}, {Kind: "crd", Name: "b"}}
-	s := render(docs, true, true)
-	img, built := assemble([]layerSpec{{Annotation: "base", Files: []fileSpec{{Name: streamFile, Data: s.Bytes}}}})
-	bi := builtImage{img: img, target: built[0].digest, streamOff: built[0].streamOff[streamFile], valid: true}
-	expected := s.objects()
-
-	rapid.Check(t, func(t *rapid.T) {
-		utilrand.Seed(rapid.Int64Range(1, 1<<40).Draw(t, "seed"))
-		ncfg := rapid.IntRange(0, 3).Draw(t, "ncfg")
-		pidx := rapid.Permutation([]int{0, 1, 2, 3, 4, 5, 6}).Draw(t, "prefixes")
-		var cfgs []vcfg
-		for i := 0; i < ncfg; i++ {
-			cfgs = append(cfgs, vcfg{Name: fmt.Sprintf("cfg%d", i), Prefix: vprefixes[pidx[i]].p,
-				Mode:    rapid.SampledFrom([]string{"none", "nocosign", "cosign", "cosign", "cosign"}).Draw(t, "mode"),
-				Verdict: rapid.Bool().Draw(t, "verdict")})
-		}
-		nsteps := rapid.IntRange(1, 7).Draw(t, "nsteps")
-		var steps []vstep
-		for i := 0; i < nsteps; i++ {
-			st := vstep{Kind: rapid.SampledFrom([]string{"sig", "sig", "rev", "rev", "add", "del", "flip"}).Draw(t, "vstep")}
-			if ncfg > 0 {
-				st.Cfg = rapid.IntRange(0, ncfg-1).Draw(t, "cfgidx")
-			} else if st.Kind != "sig" && st.Kind != "rev" {
-				st.Kind = "sig"
-			}
-			steps = append(steps, st)
-		}
-		rec.Eval()
-
-		e := newEnv(true)
-		e.fetcher.images[source] = bi
-		val := &scriptedValidator{verdict: map[string]bool{}}
-		sigClient := e.sim.Client("signature")
-		sig := signature.NewReconciler(sigClient,
-			signature.WithNewPackageRevisionFn(func() v1.PackageRevision { return &v1.ProviderRevision{} }),
-			signature.WithNamespace(namespace), signature.WithServiceAccount("crossplane"),
-			signature.WithDefaultRegistry("xpkg.example.org"),
-			signature.WithConfigStore(xpkg.NewImageConfigStore(sigClient, namespace)),
-			signature.WithValidator(val))
-		const rev = "pkg-0a1b2c3d4e5f"
-		e.createRevision(revOpts{Type: tProvider, Name: rev, Source: source})
-		present := map[int]bool{}
-		for i, c := range cfgs {
-			if rapid.Bool().Draw(t, "initiallyPresent") {
-				e.sim.MustCreate("user", imageConfig(c))
-				present[i] = true
-			}
-			val.verdict[c.Name] = c.Verdict
-		}
-		matchingSeen := false
-
-		// reference: the verification config that governs the image right now
-		best := func() (vcfg, bool) {
-			var b vcfg
-			found := false
-			for i, c := range cfgs {
-				if !present[i] || c.Mode == "none" || !strings.HasPrefix(source, c.Prefix) {
-					continue
-				}
-				if !found || len(c.Prefix) > len(b.Prefix) {
-					b, found = c, true
-				}
-			}
-			return b, found
-		}
-
-		logAt := e.sim.LogLen()
-		for i, st := range steps {
-			rec.Label("vstep:" + st.Kind)
-			val.mu.Lock()
-			val.calls = nil
-			val.mu.Unlock()
-			switch st.Kind {
-			case "add":
-				if !present[st.Cfg] {
-					e.sim.MustCreate("user", imageConfig(cfgs[st.Cfg]))
-					present[st.Cfg] = true
-				}
-			case "del":
-				if present[st.Cfg] {
-					_ = e.sim.Client("user").Delete(context.Background(), imageConfig(cfgs[st.Cfg]))
-					delete(present, st.Cfg)
-				}
-			case "flip":
-				val.mu.Lock()
-				val.verdict[cfgs[st.Cfg].Name] = !val.verdict[cfgs[st.Cfg].Name]
-				val.mu.Unlock()
-			case "sig":
-				_, _ = sig.Reconcile(context.Background(), reconcile.Request{NamespacedName: types.NamespacedName{Name: rev}})
-			case "rev":
-				if _, _, p := e.reconcile(tProvider, rev); p != nil {
-					t.Fatalf("revision reconcile panicked: %v", p)
-				}
-			}
-			b, governed := best()
-			if governed {
-				matchingSeen = true
-			}
-			// every write that turns Verified to True
-			log := e.sim.Log()
-			for _, w := range log[logAt:] {
-				if w.Key.Kind != "ProviderRevision" || w.Key.Name != rev || w.Err != "" || w.DryRun {
-					continue
-				}
-				if verifiedOf(w.After) != "True" || verifiedOf(w.Before) == "True" {
-					continue
-				}
-				rec.Label("verified-true-written")
-				if w.Actor != "signature" || st.Kind != "sig" {
-					t.Fatalf("C15 violated: step %d (%s): Verified=True written by %q, not by the signature controller", i, st.Kind, w.Actor)
-				}
-				if !governed {
-					rec.Label("verified:no-matching-config")
-					continue
-				}
-				okCall := false
-				val.mu.Lock()
-				for _, c := range val.calls {
-					if c.Authority == b.Name && c.OK && c.Ref == source {
-						okCall = true
-					}
-				}
-				calls := append([]vcall(nil), val.calls...)
-				val.mu.Unlock()
-				if b.Mode != "cosign" || !okCall {
-					t.Fatalf("C15 violated: step %d: Verified=True written although the governing verification config %+v was not satisfied (validator calls in this reconcile: %+v)\nconfigs=%s present=%v steps=%s", i, b, calls, verifkit.JSON(cfgs), present, verifkit.JSON(steps))
-				}
-				rec.Label("verified:validator-accepted")
-			}
-			logAt = len(log)
-			for _, c := range e.est.take() {
-				rec.Label("established")
-				if c.Verified != corev1.ConditionTrue {
-					t.Fatalf("C15 violated: step %d: revision established although Verified=%q and signature verification is enabled\nconfigs=%s steps=%s", i, c.Verified, verifkit.JSON(cfgs), verifkit.JSON(steps))
-				}
-				if !sameSet(c.Objs, expected) {
-					t.Fatalf("C15 violated: step %d: established objects differ from the image", i)
-				}
-			}
-		}
-		if matchingSeen {
-			rec.NonTrivial(verifkit.JSON(cfgs)+verifkit.JSON(steps), func() any { return map[string]any{"configs": cfgs, "steps": steps} })
-		}
-	})
-}
 
 // ---------------------------------------------------------------------------
 // xpkg build round trip
